@@ -136,7 +136,7 @@ class Ctx:
             print(f"KNOWN-FINDING: property={self.prop} {site} ({len(vs)} case(s) on this run) -- {rec.get('description', '')[:160]}")
         # replay files for fresh violations: one per distinct site (simplest case first)
         lines, unreproduced = [], 0
-        rdir = os.path.join(env.HOME, 'replays', self.prop)
+        rdir = os.path.join(_out_root(), 'replays', self.prop)
         seen_sites = {}
         for v in fresh:
             seen_sites.setdefault(v['site'], []).append(v)
@@ -194,12 +194,20 @@ class Ctx:
         cov['build'] = self.build_info
         ev = dict(property_id=self.prop, tier=self.tier, seed=self.seed, level=self.level, coverage=cov,
                   assumptions=self.assumptions, wall_s=round(time.time() - self.t0, 2), violations=n_fresh)
-        d = os.path.join(env.HOME, 'evidence')
+        d = os.path.join(_out_root(), 'evidence')
         os.makedirs(d, exist_ok=True)
         p = os.path.join(d, f'{self.prop}.json')
         with open(p + '.tmp', 'w') as fh:
             json.dump(ev, fh, indent=1)
         os.replace(p + '.tmp', p)
+
+
+def _out_root():
+    """Evidence and replay files of runs against /repo go to /verif; runs against any other tree (scratch worktrees with
+    seeded changes, VERIF_REPO=...) write to a scratch directory so that committed evidence is never overwritten."""
+    if os.path.realpath(env.REPO) == os.path.realpath('/repo') or os.environ.get('VERIF_OUT') == 'home':
+        return env.HOME
+    return os.environ.get('VERIF_OUT') or os.path.join(os.environ.get('VERIF_SCRATCH', '/dev/shm'), 'out')
 
 
 def _reproduces(prop, path):
